@@ -24,6 +24,7 @@ def generate(name):
 
 
 def generate_all(verbose=False):
+    import_all()
     ok = True
     for name in sorted(REGISTRY):
         try:
@@ -34,3 +35,11 @@ def generate_all(verbose=False):
             ok = False
             traceback.print_exc()
     return ok
+
+
+def import_all():
+    """import every translator module so that it registers itself"""
+    import importlib
+    import pkgutil
+    for m in pkgutil.iter_modules(__path__):
+        importlib.import_module(__name__ + "." + m.name)
